@@ -218,10 +218,17 @@ ScanPointsInside == IsScan => \A r \in ScanPoints : LET hh == BigOfHex(r.h) D ==
 \* the VRF output must be unique per (key, message): cases for the malicious-prover part of the driver (encoding malleations)
 UniqueCases == { [kind |-> "U", k |-> k, sd |-> sd, ix |-> ix, st |-> st] : k \in {1, 2}, sd \in {1, 2}, ix \in {1, 2}, st \in {1, 3, 5} }
 
+\* argmax stage of the priority: VRF outputs are searched (by the driver, deterministically) until the seat with the LARGEST hash is a given
+\* seat index -- 0, the one-byte / two-byte boundary of the index encoding (255, 256, 257), other multiples of 256 and their neighbours --
+\* for 1100 and for 600 seats; and real credentials (stake 2200, p = 1/2) whose largest seat hash sits on a positive multiple of 256.
+\* (An index >= 65536 as argmax is out of reach of a search: probability 1/65537 per output at 65537 hashes each; stated in the evidence.)
+ArgmaxCases == { [kind |-> "X", jmax |-> 1100, targets |-> {0, 1, 255, 256, 257, 511, 512, 513, 768, 1024}],
+                 [kind |-> "XC", w |-> 2200, a |-> 1, b |-> 2] }
+
 Leaf == (GenMode = "all") =>
           IF IsPt THEN \A r \in Points : PrintT("@@J " \o ToJson(r))
           ELSE IF IsScan THEN \A r \in ScanPoints : PrintT("@@J " \o ToJson(r))
           ELSE IF IsSeq THEN (Len(s.hist) = SeqDepth => PrintT("@@J " \o ToJson([kind |-> "S", ops |-> s.hist])))
           ELSE IF IsAlias THEN (Len(s.ops) = AliasDepth => PrintT("@@J " \o ToJson([kind |-> "A", aops |-> s.ops])))
-          ELSE \A r \in CredCases \cup TailCases \cup BigCases \cup PrioCases \cup UniqueCases : PrintT("@@J " \o ToJson(r))
+          ELSE \A r \in CredCases \cup TailCases \cup BigCases \cup PrioCases \cup UniqueCases \cup ArgmaxCases : PrintT("@@J " \o ToJson(r))
 =============================================================================
